@@ -27,13 +27,13 @@ var replayTests = map[string]string{
 	"wire:processFieldsOf":                 "TestReplay_frontend",
 	"wire:bindShouldUsePointer":            "TestReplay_frontend",
 	"wire:(*objectCache).get":              "TestReplay_frontend",
-	"wire:copyAST$1":                       "TestReplay_frontend",
+	"wire:copyAST$1":                       "TestReplay_copyAST",
 	"wire:processInterfaceValue":           "TestReplay_frontend",
 	"main:(*diffCmd).Execute":              "TestReplay_diffCmd",
 	"main:(*genCmd).Execute":               "TestReplay_genCmd",
 }
 
-var clauseRe = regexp.MustCompile(`/(ensures#\d+|requires-preserved#\d+|each#\d+|frame#\d+|loop\d+/inv#\d+|panic#\d+|typeassert#\d+|nilderef#\d+|index#\d+|typednil#\d+|contract-mismatch)`)
+var clauseRe = regexp.MustCompile(`/(ensures#\d+|requires-preserved#\d+|each#\d+|frame#\d+|loop\d+/inv#\d+|panic#\d+|typeassert#\d+|nilderef#\d+|index#\d+|typednil#\d+|nilelem#\d+|nilmap#\d+|contract-mismatch)`)
 
 // runConcretiser tries to reproduce a failed obligation on the real code: the replay test of the
 // obligation's function is injected into the real package with `go test -overlay` and run; a
@@ -74,7 +74,7 @@ func runConcretiser(v *Verifier, prop string, ob *Obligation, rp *Replay) {
 	os.WriteFile(ovPath, ov, 0644)
 	cmd := exec.Command("go", "test", "-overlay", ovPath, "-vet=off", "-count=1", "-timeout", "120s", "-run", "^"+test+"$", "./"+pkgDir)
 	cmd.Dir = v.RepoDir
-	cmd.Env = append(os.Environ(), "GOFLAGS=-mod=mod", "GOPROXY=off", "GOSUMDB=off", "GOTOOLCHAIN=local", "GOVC_OBLIGATION="+ob.Name)
+	cmd.Env = append(os.Environ(), "GOFLAGS=-mod=mod", "GOPROXY=off", "GOSUMDB=off", "GOTOOLCHAIN=local", "GOVC_OBLIGATION="+ob.Name, "GOVC_CLAUSE_TEXT="+ob.Text)
 	out, _ := cmd.CombinedOutput()
 	text := string(out)
 	rp.ReplayTest = fmt.Sprintf("cd %s && go test -overlay <%s> -vet=off -run '^%s$' ./%s", v.RepoDir, strings.Join(files, ","), test, pkgDir)
